@@ -35,6 +35,9 @@ type c11Case struct {
 type c11Ctx struct {
 	live *facts.State
 	dc   ast.IDataContext
+	// the slice an earlier call returned and what it held then: a caller may keep it
+	kept      []*ast.RuleEntry
+	keptNames []string
 }
 
 func c11Run(c *val.Case, removedLib, removedInst []string, sameDC bool, more ...*facts.State) ([]string, map[string]interface{}, error) {
@@ -74,6 +77,26 @@ func c11Run(c *val.Case, removedLib, removedInst []string, sameDC bool, more ...
 			next = cx
 		}
 		v2, _, err2 := c11RunOnCtx(&c2, prep, kb, removedLib, removedInst, next)
+		if cx.kept != nil && err2 == nil {
+			// another instance of the same knowledge base answers a call in between as well
+			if other, oerr := obs.Instance(prep.Lib); oerr == nil {
+				os := st.Copy()
+				if odc, derr := obs.NewDataContext(os); derr == nil {
+					_, _, _ = obs.FetchRaw(other, odc, false)
+				}
+			}
+			var now []string
+			for _, e := range cx.kept {
+				if e == nil {
+					now = append(now, "<nil>")
+				} else {
+					now = append(now, e.RuleName)
+				}
+			}
+			if strings.Join(now, ",") != strings.Join(cx.keptNames, ",") {
+				v2 = append(v2, fmt.Sprintf("the list the first call returned held %v; after later calls the same slice holds %v", cx.keptNames, now))
+			}
+		}
 		if err2 != nil {
 			return nil, info, err2
 		}
@@ -141,7 +164,16 @@ func c11RunOnCtx(c *val.Case, prep *val.Prepared, kb *ast.KnowledgeBase, removed
 		}
 	}
 	condProbes := probe.N // truth runs in neutral mode: stays 0
-	names, sal, ferr, pan := obs.Fetch(kb, dc, c.ErrOnFail)
+	raw, ferr, pan := obs.FetchRaw(kb, dc, c.ErrOnFail)
+	var names []string
+	var sal []int
+	for _, r := range raw {
+		names = append(names, r.RuleName)
+		sal = append(sal, r.Salience)
+	}
+	if cx.kept == nil && ferr == nil && pan == nil && len(raw) > 0 {
+		cx.kept, cx.keptNames = raw, append([]string{}, names...)
+	}
 	info := map[string]interface{}{"returned": names, "saliences": sal, "expected": keysOf(want), "failing": keysOf(failing), "removed": keysOf(removed)}
 	var v []string
 	if pan != nil {
